@@ -1,0 +1,32 @@
+// SPDX-FileCopyrightText: 2023 The Pion community <https://pion.ly>
+// SPDX-License-Identifier: MIT
+
+//go:build verif
+
+package rtp
+
+import (
+	"time"
+
+	"github.com/pion/randutil"
+)
+
+// VerifSetRandom replaces the package random generator (verification seam) and
+// returns a function that restores the previous one.
+func VerifSetRandom(g randutil.MathRandomGenerator) (restore func()) {
+	old := globalMathRandomGenerator
+	globalMathRandomGenerator = g
+
+	return func() { globalMathRandomGenerator = old }
+}
+
+// VerifSetClock replaces the clock a packetizer created by NewPacketizer reads
+// for the abs-send-time extension (verification seam).
+func VerifSetClock(p Packetizer, now func() time.Time) bool {
+	pk, ok := p.(*packetizer)
+	if ok {
+		pk.timegen = now
+	}
+
+	return ok
+}
